@@ -15,6 +15,12 @@ CLAIMED = {
    note="Trusted: Lean kernel; the heap model; slices.SortFunc assumed to leave an ascending permutation (checked on every observed call); the named callback family is implemented twice (Go, Lean). Integers unbounded in the model."),
 }
 
+ "C14": dict(
+   text="Machine-checked proof (Lean 4, full): dict refines a finite map (add_refines, containsKey/tryFind/item_refines, keys/kvs_enumerates with Nodup for EVERY enumeration order, toDict_last), strings laws for all byte strings (concat_split, concat_splitN, splitN2, hasPrefix/hasSuffix_iff, trimSuffix_append, argument-order theorems) over a transcription of Go's genSplit/Index, buf_accumulates, frt thunk/tuple laws, and toS_total: for every reflect kind the accessor chosen by the REGENERATED kind switch is legal (false before fix a41e038: toS_unfixed_panics). Tied to /repo by regenerated inventories + toS arms and by lib.dict/lib.str/lib.buf/lib.tos correspondence streams against the real packages.",
+   design="§5 C14", technique="Lean 4 theorems (refinement, list laws, decide over a regenerated table) + correspondence with the real packages",
+   note="Trusted: Lean kernel; Go map = duplicate-free association list; transcription of Go's strings functions (explode only for single-byte characters); reflect accessor contract; float formatting not compared."),
+}
+
 NA = {
  "C04": "Fixed-point equality of specific checked-in files with what the real toolchain produces: no unbounded quantifier a theorem could settle and no executable model short of re-implementing the whole language; see DESIGN.md §6.",
 }
